@@ -155,12 +155,31 @@ func checkC18(c *Ctx) {
 		// the coordinate tests may guard a store of true, or be the stored expression itself
 		// (vis = x >= 0 && y >= 0 && x < w && y < h, or the negation of the off-screen test); the fields may
 		// be grouped in a struct: what counts is four comparisons of the requested position
+		// the requested position: the fields ShowCursor stores its two parameters into
+		posFields := []string{"cursor", ".x", ".y"}
+		if shc := p.Fn("tcell:(*simscreen).ShowCursor"); shc != nil && len(shc.Params) == 3 {
+			eachInstr(shc, func(in ssa.Instruction) {
+				if st, isSt := in.(*ssa.Store); isSt {
+					if prm, isP := derefCell(st.Val).(*ssa.Parameter); isP && (prm == shc.Params[1] || prm == shc.Params[2]) {
+						if ref, _, isF := fieldAddrRef(st.Addr); isF {
+							posFields = append(posFields, "."+ref.Name)
+						}
+					}
+				}
+			})
+		}
 		countTests := func(gs []rawGuard) int {
 			n := 0
 			for _, g := range gs {
 				if at, okA := condAtom(g.Cond, g.Positive); okA {
 					as := at.String()
-					if (strings.Contains(as, "cursor") || strings.Contains(as, ".x") || strings.Contains(as, ".y")) && (at.Op == "<" || at.Op == ">=" || at.Op == ">" || at.Op == "<=") {
+					pos := false
+					for _, f := range posFields {
+						if strings.Contains(as, f) {
+							pos = true
+						}
+					}
+					if pos && (at.Op == "<" || at.Op == ">=" || at.Op == ">" || at.Op == "<=") {
 						n++
 					}
 				}
@@ -184,6 +203,27 @@ func checkC18(c *Ctx) {
 			}
 			if countTests(expandCond(st.Val, true, 0)) >= 4 {
 				ok = true
+			}
+			// the expression may be the answer of a small helper (`s.onScreen(s.cursorx, s.cursory)`): its
+			// return expression, with the parameters printed as the arguments
+			if call, isCall := st.Val.(*ssa.Call); isCall {
+				if h := call.Call.StaticCallee(); h != nil && h.Pkg == sc.Pkg && len(h.Blocks) > 0 {
+					if rets := returnsOf(h); len(rets) == 1 && len(rets[0].Results) == 1 {
+						env := map[*ssa.Parameter]ssa.Value{}
+						for i, pa := range h.Params {
+							if i < len(call.Call.Args) {
+								env[pa] = call.Call.Args[i]
+							}
+						}
+						saved := valNameEnv
+						valNameEnv = env
+						n := countTests(expandCond(derefCell(resultOf(rets[0], 0)), true, 0))
+						valNameEnv = saved
+						if n >= 4 {
+							ok = true
+						}
+					}
+				}
 			}
 		})
 		_ = storesTo
